@@ -28,6 +28,7 @@ type Profile struct {
 }
 
 var fieldNames = []string{"_", "Value", "Named", "IDs", "ID", "Name", "Status", "Val", "Cat", "Score", "Tags", "Items", "Nested", "Count", "Flag", "Data", "Id", "id", "name", "NAME", "val", "Ptr", "Extra", "Zed"}
+
 // foldPairs: equal under strings.EqualFold, different byte lengths (long s, Kelvin sign, capital sharp s, Angstrom sign, Ohm sign)
 var foldPairs = [][2]string{{"ſet", "SET"}, {"\u212aelvin", "kelvin"}, {"Ma\u00df", "MA\u1e9e"}, {"\u212bre", "\u00e5re"}, {"\u2126hm", "\u03c9hm"}}
 
@@ -728,6 +729,14 @@ func GenNotations(t *rapid.T, m *Method, src, dst StructDecl, uf *UserFuncs, pf 
 	if len(dms) == 0 || len(sms) == 0 {
 		return
 	}
+	if pf.ErrHeavy && !m.Reverse && errExtra(m.Extras) < 0 && len(m.Extras) < 3 && rapid.IntRange(0, 2).Draw(t, "addErrExtra") == 0 {
+		// an additional argument whose type has the (T, error) getter E(): "$n.E()" sources, with and without error result
+		e := Param{Type: rapid.SampledFrom([]string{"*LInner", "*ext.Inner", "LInner"}).Draw(t, "errExtraType")}
+		if m.SrcName != "" {
+			e.Name = fmt.Sprintf("x%d", len(m.Extras))
+		}
+		m.Extras = append(m.Extras, e)
+	}
 	n := rapid.IntRange(0, 4).Draw(t, "nnotes")
 	var deep []member
 	for _, d := range dms {
@@ -775,12 +784,18 @@ func GenNotations(t *rapid.T, m *Method, src, dst StructDecl, uf *UserFuncs, pf 
 				// a (T, error) getter of an additional argument: wired in with an error check, or - in a method without
 				// error result - not at all
 				dd := d
-				var ints []member
+				var ints, exact []member
 				for _, x := range dms {
 					switch x.Home {
-					case "int", "int64", "LInt", "ext.MyInt", "interface{}":
+					case "int", "interface{}":
+						exact = append(exact, x) // E() returns an int: these take it as it is
+						ints = append(ints, x)
+					case "int64", "LInt", "ext.MyInt":
 						ints = append(ints, x)
 					}
+				}
+				if len(exact) > 0 && rapid.IntRange(0, 3).Draw(t, "tmplErrGetterExact") != 0 {
+					ints = exact
 				}
 				if len(ints) > 0 {
 					dd = rapid.SampledFrom(ints).Draw(t, "tmplErrGetterDst") // E() returns an int
@@ -821,7 +836,13 @@ func GenNotations(t *rapid.T, m *Method, src, dst StructDecl, uf *UserFuncs, pf 
 				// a pointer to a type the field is assignable to but not identical with: &field does not fit
 				argT, ptrArg = twin, true
 			}
-			name := uf.Converter(argT, d.Home, retErr, ptrArg)
+			name := ""
+			if s.Home == "int" && d.Home == "string" && !strings.HasSuffix(s.Path, "()") && rapid.IntRange(0, 1).Draw(t, "zooConv") == 0 {
+				// a converter of the zoo: qualified (ext.IntToStr) or, through the setup file's dot import, unqualified
+				name = rapid.SampledFrom([]string{"DotIntToStr", "DotIntToStr", "ext.IntToStr"}).Draw(t, "zooConvName")
+			} else {
+				name = uf.Converter(argT, d.Home, retErr, ptrArg)
+			}
 			if s.Path == d.Path && rapid.Bool().Draw(t, "omitDst") {
 				m.Notes = append(m.Notes, Notation{"conv", []string{name, s.Path}})
 			} else {
